@@ -5,7 +5,7 @@ import itertools, random, json
 from ..harness import coq, impl, scn, gen, obs as O, pyeval
 
 pid = 'C07'
-gen_modules = ['tr_state', 'tr_validators', 'tr_has_patcher', 'tr_contracts', 'tr_decorators', 'tr_pin_contracts', 'tr_pin_invariant', 'tr_rest_validators', 'tr_rest_patcher', 'tr_rest_state', 'tr_rest_contractsconst', 'tr_dispatch', 'tr_rest_dispatch']
+gen_modules = ['tr_state', 'tr_validators', 'tr_has_patcher', 'tr_contracts', 'tr_decorators', 'tr_pin_contracts', 'tr_pin_invariant', 'tr_rest_validators', 'tr_rest_patcher', 'tr_rest_state', 'tr_rest_contractsconst', 'tr_dispatch', 'tr_rest_dispatch', 'tr_rest_trace']
 model_targets = ['Sem/ScnSwitch.v', 'Sem/Scenario.v']
 hand_modelled = []
 OPS = ['enable', 'disable', 'reset', 'perm']
@@ -280,7 +280,21 @@ def check_decorated_while_disabled():
     for arg in (1, 2, 3):
         raised(d, arg)
         out[f"disabled_after_dispatch_{arg}"] = (state.debug is False) and raised(f, -1) is None
+    # the case runners of the test / memtest commands switch contracts off and on around each case: afterwards the last effective
+    # switch (here: disabled; under -O the mirror image, enabled by hand) decides again
+    import io
+    from deal._cli._memtest import run_cases as mem_run_cases
+    from deal._cli._test import run_cases as test_run_cases
+    colors = dict(blue="", yellow="", red="", green="", end="", magenta="")
+    @deal.pre(lambda x: x > 0)
+    def k(x: int) -> int: return x
+    for label, runner in (("memtest", mem_run_cases), ("test", test_run_cases)):
+        raised(runner, deal.cases(k, count=3, check_types=False), "k", io.StringIO(), colors)
+        out[f"disabled_after_{label}_run_cases"] = (state.debug is False) and raised(f, -1) is None
     deal.enable()
+    for label, runner in (("memtest", mem_run_cases), ("test", test_run_cases)):
+        raised(runner, deal.cases(k, count=3, check_types=False), "k", io.StringIO(), colors)
+        out[f"enabled_after_{label}_run_cases"] = (state.debug is True) and raised(f, -1) == "PreContractError"
     return out
 '''
 
